@@ -1,38 +1,22 @@
-(* C04: the model of unescape_quoted_string inverts Tor's esc_for_log on every path whose
-   bytes are below 128 (and mangles a byte >= 128 into two: finding C04-F1). *)
+(* C04: the model of unescape_quoted_string followed by the latin-1 re-encoding inverts Tor's
+   esc_for_log on EVERY path (all 256 byte values). *)
 From Coq Require Import List Bool Ascii Arith NArith Lia String.
-From TxVerif Require Import Lib.Bytes Lib.Hex Spec.C04 Model.Auth.
+From TxVerif Require Import Lib.Bytes Lib.Hex Spec.C04 Gen.AuthConsts Model.Auth.
 Import ListNotations.
 Open Scope N_scope.
 
-Lemma unescape_esc_char_low : forall a r, (code a <? 128) = true ->
+Lemma unescape_esc_char : forall a r,
   unescape (esc_char a ++ r) = omap (cons a) (unescape r).
 Proof.
-  intros a r Ha.
+  intros a r.
   destruct a as [b0 b1 b2 b3 b4 b5 b6 b7].
-  destruct b7; [destruct b0, b1, b2, b3, b4, b5, b6; vm_compute in Ha; discriminate|].
-  destruct b0, b1, b2, b3, b4, b5, b6;
+  destruct b0, b1, b2, b3, b4, b5, b6, b7;
     (cbn; try reflexivity; destruct (unescape r); reflexivity).
 Qed.
 
-Lemma unescape_roundtrip : forall p, high_byte p = false -> unescape (esc_for_log p) = Some p.
+Lemma unescape_roundtrip : forall p, unescape (esc_for_log p) = Some p.
 Proof.
-  induction p as [|a p IH]; intros H; [reflexivity|].
-  cbn [high_byte existsb] in H. apply orb_false_iff in H as [Ha Hp].
-  cbn [esc_for_log flat_map]. rewrite unescape_esc_char_low.
-  - fold (esc_for_log p). rewrite (IH Hp). reflexivity.
-  - destruct (code a <? 128) eqn:E; [reflexivity|].
-    apply N.ltb_ge in E. apply N.leb_le in E. congruence.
-Qed.
-
-(* a byte >= 128 comes back as the two UTF-8 bytes of the code point with that number *)
-Lemma unescape_esc_char_high : forall a r, (128 <=? code a) = true ->
-  unescape (esc_char a ++ r) =
-  omap (app [ch (192 + code a / 64); ch (128 + code a mod 64)]) (unescape r).
-Proof.
-  intros a r Ha.
-  destruct a as [b0 b1 b2 b3 b4 b5 b6 b7].
-  destruct b7; [|destruct b0, b1, b2, b3, b4, b5, b6; vm_compute in Ha; discriminate].
-  destruct b0, b1, b2, b3, b4, b5, b6;
-    (cbn; try reflexivity; destruct (unescape r); reflexivity).
+  induction p as [|a p IH]; [reflexivity|].
+  cbn [esc_for_log flat_map]. rewrite unescape_esc_char.
+  fold (esc_for_log p). rewrite IH. reflexivity.
 Qed.
